@@ -89,15 +89,17 @@ Definition a_step (s : astore) (o : regop) : astore * regres :=
   | ListDownstreamMessages e =>
     (s, RDowns (firstn 100 (sort_by dn_created (filter (fun x => dn_eui x =? e) (a_downs s)))))
   | Reopen => (s, ROk)
-  (* compare and store: the expected uplink counter moves to newfup only if it has not passed the accepted counter *)
-  | AdvanceFCntUp e a nf kw =>
-    let hit x := (rd_eui x =? e) && (rd_fup x <=? a) in
+  (* compare and store: the expected uplink counter moves to newfup only if it has not passed the accepted counter
+     and the device is still in the session whose network key is given *)
+  | AdvanceFCntUp e key a nf kw =>
+    let hit x := (rd_eui x =? e) && (rd_fup x <=? a) && bytes_eqb (rd_nwkskey x) key in
     if existsb hit (a_devs s)
     then (set_devs s (map (fun x => if hit x then upd_dev_state x nf (rd_fdn x) kw else x) (a_devs s)), ROk) else (s, RNotFound)
-  (* fetch and increment: the stored downlink counter is handed out and its successor stored *)
-  | NextFCntDn e =>
-    match find (fun x => rd_eui x =? e) (a_devs s) with
-    | Some d => (set_devs s (map (fun x => if rd_eui x =? e then upd_dev_state x (rd_fup x) ((rd_fdn x + 1) mod 65536) (rd_kw x) else x) (a_devs s)), RCnt (rd_fdn d))
+  (* fetch and increment within the session: the stored downlink counter is handed out and its successor stored *)
+  | NextFCntDn e key =>
+    let hit x := (rd_eui x =? e) && bytes_eqb (rd_nwkskey x) key in
+    match find hit (a_devs s) with
+    | Some d => (set_devs s (map (fun x => if hit x then upd_dev_state x (rd_fup x) ((rd_fdn x + 1) mod 65536) (rd_kw x) else x) (a_devs s)), RCnt (rd_fdn d))
     | None => (s, RNotFound)
     end
   (* the message's transmission is recorded: when, and in answer to which uplink counter *)
